@@ -426,6 +426,8 @@ structure PieceOk (f : MeshFields) (d : Nat) (cnames pnames : List String) (rsC 
   pfWf : ∀ pf ∈ f.pointFields,
     pf.values.data.length = f.mesh.points.length * pf.values.rowSize ∧ pf.values.rowSize = rsP pf.name
   pfComplete : ∀ n ∈ pnames, (f.pointFields.find? (·.name == n)).isSome = true
+  cfNames : ∀ cf ∈ f.cellFields, cf.name ∈ cnames
+  pfNames : ∀ pf ∈ f.pointFields, pf.name ∈ pnames
 
 /-- the duplicate map of one step -/
 def stepDups (srt : List (List Int) → List Nat) (f1 f2 : MeshFields) : List (Option Nat) :=
@@ -744,7 +746,7 @@ theorem pointItemsOf_step (srt : List (List Int) → List Nat) (f1 f2 : MeshFiel
       rw [(pointValue_step srt f1 f2 d cnames pnames rsC rsP h1 h2 hinv n hn).1 p hp]
   · apply List.ext_getElem?
     intro r
-    simp only [List.getElem?_map, List.getElem?_range]
+    simp only [List.getElem?_map]
     by_cases hr : r < (filterExternal (stepDups srt f1 f2)).length
     · rw [List.getElem?_eq_getElem hr]
       simp only [hr, List.getElem?_range, Option.map_some, Function.comp, Option.some.injEq]
@@ -762,5 +764,207 @@ theorem pointItemsOf_step (srt : List (List Int) → List Nat) (f1 f2 : MeshFiel
     · have hr' : (filterExternal (stepDups srt f1 f2)).length ≤ r := by omega
       rw [List.getElem?_eq_none hr']
       simp [hr]
+
+/-! ### a merge step preserves `PieceOk` -/
+
+theorem length_flatMap_const {α} (g : Nat → List α) (rs : Nat) (idx : List Nat)
+    (h : ∀ i ∈ idx, (g i).length = rs) : (idx.flatMap g).length = idx.length * rs := by
+  induction idx with
+  | nil => simp
+  | cons i rest ih =>
+    simp only [List.flatMap_cons, List.length_append, List.length_cons]
+    rw [ih (fun j hj => h j (List.mem_cons_of_mem _ hj)), h i (List.mem_cons_self ..), Nat.add_mul, Nat.one_mul]
+    omega
+
+theorem mem_mergeCellFields (types : List String) (cf1 cf2 : List CellField) (cf : CellField)
+    (h : cf ∈ mergeCellFields types cf1 cf2) :
+    ∃ ct ∈ types, ∃ n, (n ∈ cf1.map (·.name) ∨ n ∈ cf2.map (·.name)) ∧
+      mergeCellEntry n ct (findCellField cf1 n ct) (findCellField cf2 n ct) = some cf := by
+  simp only [mergeCellFields, List.mem_flatMap, List.mem_filterMap] at h
+  obtain ⟨ct, hct, n, hn, he⟩ := h
+  rw [mem_dedupNames, List.mem_append] at hn
+  exact ⟨ct, hct, n, hn, he⟩
+
+theorem stepResult_ok (srt : List (List Int) → List Nat) (f1 f2 : MeshFields) (d : Nat)
+    (cnames pnames : List String) (rsC rsP : String → Nat)
+    (h1 : PieceOk f1 d cnames pnames rsC rsP) (h2 : PieceOk f2 d cnames pnames rsC rsP)
+    (hinv : DupInv f2.mesh.points f1.mesh.points f1.mesh.points.length (stepDups srt f1 f2)) :
+    PieceOk (stepResult srt f1 f2) d cnames pnames rsC rsP := by
+  have hpts : (stepResult srt f1 f2).mesh.points =
+      mergedPoints f1.mesh.points f2.mesh.points (stepDups srt f1 f2) := rfl
+  have hrows : ∀ ct, (stepResult srt f1 f2).mesh.cellsOf ct =
+      f1.mesh.cellsOf ct ++ remapRows (mapExternal (stepDups srt f1 f2) f1.mesh.points.length) (f2.mesh.cellsOf ct) := by
+    intro ct
+    simp only [cellsOf_eq_rowsOfType, stepResult]
+    exact rowsOfType_mergeCells _ _ _ ct
+  have hlenrows : ∀ ct, ((stepResult srt f1 f2).mesh.cellsOf ct).length =
+      (f1.mesh.cellsOf ct).length + (f2.mesh.cellsOf ct).length := by
+    intro ct; rw [hrows]; simp [remapRows]
+  have hn1 : f1.mesh.points.length ≤ (stepResult srt f1 f2).mesh.points.length := by
+    rw [hpts]; simp [mergedPoints]
+  have hremap : ∀ row ∈ (List.map (fun b : String × List (List Nat) => b.2) f2.mesh.cells).flatten,
+      ∀ p ∈ row, (mapExternal (stepDups srt f1 f2) f1.mesh.points.length).getD p 0 <
+        (stepResult srt f1 f2).mesh.points.length := by
+    intro row hrow p hp
+    simp only [List.mem_flatten, List.mem_map] at hrow
+    obtain ⟨rows, ⟨b, hb, rfl⟩, hr⟩ := hrow
+    rw [hpts]
+    exact remap_lt _ _ _ hinv p (h2.cellIdx b hb row hr p hp)
+  refine ⟨?_, ?_, ?_, ?_, ?_, ?_, ?_, ?_, ?_⟩
+  · intro q hq
+    rw [hpts, mem_mergedPoints _ _ _ hinv] at hq
+    exact hq.elim (h1.rows q) (h2.rows q)
+  · rw [hpts]; exact mergedPoints_nodup _ _ _ hinv h1.nodup h2.nodup
+  · -- cell corners stay in range
+    intro b hb row hrow p hp
+    simp only [stepResult, mergeCells, List.mem_append, List.mem_map, List.mem_filter] at hb
+    rcases hb with ⟨b1, hb1, rfl⟩ | ⟨b2, ⟨hb2, _⟩, rfl⟩
+    · simp only [List.mem_append] at hrow
+      rcases hrow with hrow | hrow
+      · exact Nat.lt_of_lt_of_le (h1.cellIdx b1 hb1 row hrow p hp) hn1
+      · simp only [remapRows, List.mem_map] at hrow
+        obtain ⟨row2, hrow2, rfl⟩ := hrow
+        simp only [List.mem_map] at hp
+        obtain ⟨q, hq, rfl⟩ := hp
+        obtain ⟨b2, hb2, hr2⟩ := rows_mem_cells _ _ _ hrow2
+        exact hremap row2 (by simp only [List.mem_flatten, List.mem_map]; exact ⟨b2.2, ⟨b2, hb2, rfl⟩, hr2⟩) q hq
+    · simp only [remapRows, List.mem_map] at hrow
+      obtain ⟨row2, hrow2, rfl⟩ := hrow
+      simp only [List.mem_map] at hp
+      obtain ⟨q, hq, rfl⟩ := hp
+      exact hremap row2 (by simp only [List.mem_flatten, List.mem_map]; exact ⟨b2.2, ⟨b2, hb2, rfl⟩, hrow2⟩) q hq
+  · -- merged cell-field arrays are well-formed
+    intro cf hcf
+    obtain ⟨ct, _, n, hn, he⟩ := mem_mergeCellFields _ _ _ cf hcf
+    obtain ⟨hcn, hcc⟩ := mergeCellEntry_name_ctype n ct _ _ cf he
+    have hnc : n ∈ cnames := by
+      rcases hn with hn | hn
+      · obtain ⟨a, ha, rfl⟩ := List.mem_map.mp hn; exact h1.cfNames a ha
+      · obtain ⟨b, hb, rfl⟩ := List.mem_map.mp hn; exact h2.cfNames b hb
+    rw [hcc, hlenrows ct]
+    cases ha : findCellField f1.cellFields n ct with
+    | none =>
+      have hl1 : (f1.mesh.cellsOf ct).length = 0 := by
+        cases hl : f1.mesh.cellsOf ct with
+        | nil => rfl
+        | cons x xs =>
+          have := h1.cfComplete ct (by rw [hl]; exact List.cons_ne_nil _ _) n hnc
+          rw [ha] at this; cases this
+      cases hb : findCellField f2.cellFields n ct with
+      | none => rw [ha, hb] at he; cases he
+      | some b =>
+        rw [ha, hb] at he
+        simp only [mergeCellEntry, Option.some.injEq] at he
+        subst he
+        obtain ⟨hbm, hbn, hbc⟩ := findCellField_some _ _ _ _ hb
+        have := h2.cfWf b hbm
+        rw [hbc] at this
+        simp only [hl1, Nat.zero_add]
+        exact ⟨this.1, by rw [this.2, hbn]⟩
+    | some a =>
+      obtain ⟨ham, han, hac⟩ := findCellField_some _ _ _ _ ha
+      have hwa := h1.cfWf a ham
+      rw [hac] at hwa
+      cases hb : findCellField f2.cellFields n ct with
+      | none =>
+        have hl2 : (f2.mesh.cellsOf ct).length = 0 := by
+          cases hl : f2.mesh.cellsOf ct with
+          | nil => rfl
+          | cons x xs =>
+            have := h2.cfComplete ct (by rw [hl]; exact List.cons_ne_nil _ _) n hnc
+            rw [hb] at this; cases this
+        rw [ha, hb] at he
+        simp only [mergeCellEntry, Option.some.injEq] at he
+        subst he
+        simp only [hl2, Nat.add_zero]
+        exact ⟨hwa.1, by rw [hwa.2, han]⟩
+      | some b =>
+        obtain ⟨hbm, hbn, hbc⟩ := findCellField_some _ _ _ _ hb
+        have hwb := h2.cfWf b hbm
+        rw [hbc] at hwb
+        rw [ha, hb] at he
+        simp only [mergeCellEntry, Option.some.injEq] at he
+        subst he
+        have hrs : b.values.rowSize = a.values.rowSize := by rw [hwa.2, hwb.2, han, hbn]
+        have hcr : (a.values.concat b.values).rowSize = a.values.rowSize := by simp [NdArr.concat, NdArr.rowSize]
+        refine ⟨?_, by rw [hcr, hwa.2, han]⟩
+        rw [hcr]
+        simp only [NdArr.concat, List.length_append, hwa.1, hwb.1, hrs, Nat.add_mul]
+  · -- every named cell field is present wherever the merged mesh has cells
+    intro ct hne n hn
+    have hct : ct ∈ (stepResult srt f1 f2).mesh.cells.map (·.1) :=
+      mem_types_of_rows _ ct (by simpa [cellsOf_eq_rowsOfType] using hne)
+    have hfind : findCellField (stepResult srt f1 f2).cellFields n ct =
+        mergeCellEntry n ct (findCellField f1.cellFields n ct) (findCellField f2.cellFields n ct) := by
+      simp only [stepResult]; exact findCellField_merge _ _ _ n ct hct
+    rw [hfind]
+    have hlen : 0 < (f1.mesh.cellsOf ct).length + (f2.mesh.cellsOf ct).length := by
+      rw [← hlenrows ct]; exact List.length_pos_iff.mpr hne
+    by_cases hl1 : f1.mesh.cellsOf ct = []
+    · have hl2 : f2.mesh.cellsOf ct ≠ [] := by
+        intro h; rw [hl1, h] at hlen; simp at hlen
+      have := h2.cfComplete ct hl2 n hn
+      cases hb : findCellField f2.cellFields n ct with
+      | none => rw [hb] at this; cases this
+      | some b => cases findCellField f1.cellFields n ct <;> rfl
+    · have := h1.cfComplete ct hl1 n hn
+      cases ha : findCellField f1.cellFields n ct with
+      | none => rw [ha] at this; cases this
+      | some a => cases findCellField f2.cellFields n ct <;> rfl
+  · -- merged point-field arrays are well-formed
+    intro pf hpf
+    simp only [stepResult, mergePointFields, List.mem_append, List.mem_map, List.mem_filter] at hpf
+    rcases hpf with ⟨a, ha, rfl⟩ | ⟨b, ⟨hb, hnew⟩, rfl⟩
+    · have hwa := h1.pfWf a ha
+      have hs2 := h2.pfComplete a.name (h1.pfNames a ha)
+      cases hb : f2.pointFields.find? (·.name == a.name) with
+      | none => rw [hb] at hs2; cases hs2
+      | some b =>
+        have hbm := List.mem_of_find?_eq_some hb
+        have hbn : b.name = a.name := by simpa using List.find?_some hb
+        have hwb := h2.pfWf b hbm
+        have hrs : b.values.rowSize = a.values.rowSize := by rw [hwa.2, hwb.2, hbn]
+        simp only [mergePointEntry]
+        have hcr : (a.values.concat (b.values.takeRows (filterExternal (stepDups srt f1 f2)))).rowSize
+            = a.values.rowSize := by simp [NdArr.concat, NdArr.rowSize]
+        refine ⟨?_, by rw [hcr]; exact hwa.2⟩
+        rw [hcr, hpts]
+        simp only [NdArr.concat, NdArr.takeRows, List.length_append, mergedPoints, List.length_map]
+        rw [length_flatMap_const b.values.row b.values.rowSize _ (fun i hi => by
+          obtain ⟨r', hr', hri⟩ := List.getElem_of_mem hi
+          have := (filter_entry_lt _ r' i (by rw [List.getElem?_eq_getElem hr', hri])).1
+          rw [hinv.len] at this
+          exact row_length b.values _ i hwb.1 this)]
+        rw [hwa.1, hrs, Nat.add_mul]
+    · -- a field of the later piece without partner cannot exist: all names are schema names
+      exfalso
+      have hs1 := h1.pfComplete b.name (h2.pfNames b hb)
+      cases ha : f1.pointFields.find? (·.name == b.name) with
+      | none => rw [ha] at hs1; cases hs1
+      | some a =>
+        have ham := List.mem_of_find?_eq_some ha
+        have han : a.name = b.name := by simpa using List.find?_some ha
+        simp only [Bool.not_eq_true', List.any_eq_false] at hnew
+        have := hnew a ham
+        simp [han] at this
+  · intro n hn
+    have hs1 := h1.pfComplete n hn
+    cases ha : f1.pointFields.find? (·.name == n) with
+    | none => rw [ha] at hs1; cases hs1
+    | some a =>
+      simp only [stepResult, mergePointFields]
+      rw [List.find?_append, find_map_name _ (fun a => mergePointEntry_name _ _ a _), ha]
+      rfl
+  · intro cf hcf
+    obtain ⟨ct, _, n, hn, he⟩ := mem_mergeCellFields _ _ _ cf hcf
+    rw [(mergeCellEntry_name_ctype n ct _ _ cf he).1]
+    rcases hn with hn | hn
+    · obtain ⟨a, ha, rfl⟩ := List.mem_map.mp hn; exact h1.cfNames a ha
+    · obtain ⟨b, hb, rfl⟩ := List.mem_map.mp hn; exact h2.cfNames b hb
+  · intro pf hpf
+    simp only [stepResult, mergePointFields, List.mem_append, List.mem_map, List.mem_filter] at hpf
+    rcases hpf with ⟨a, ha, rfl⟩ | ⟨b, ⟨hb, _⟩, rfl⟩
+    · rw [mergePointEntry_name]; exact h1.pfNames a ha
+    · exact h2.pfNames b hb
 
 end Fc
